@@ -105,6 +105,7 @@ func c08prop(ev *evid.Rec) func(rt *rapid.T) {
 		}
 		inFolder := rapid.Bool().Draw(rt, "infolder")
 		own := rapid.IntRange(0, 3).Draw(rt, "ownroot") == 0
+		viaAlias := !storedInfo && !storedRsrc && len(name) < 200 && rapid.IntRange(0, 3).Draw(rt, "viaAlias") == 0
 		// how the client's bytes on the transfer connection are cut into segments ("" = one Write per message)
 		seg := rapid.SampledFrom([]string{"", "", "random", "header", "bytes"}).Draw(rt, "segmentation")
 		segSeed := rapid.Uint64().Draw(rt, "segseed")
@@ -144,7 +145,13 @@ func c08prop(ev *evid.Rec) func(rt *rapid.T) {
 				must(os.WriteFile(filepath.Join(dir, ".rsrc_"+name), rsrc, 0o644))
 			}
 			c := loginAs(rt, w, "10.0.0.1:1", "admin", "adminpw", "admin")
-			fs := []hlref.Field{fld(hlref.FFileName, wireName)}
+			reqName := wireName
+			if viaAlias {
+				// the file is asked for through an alias (as made by the make-alias request): sizes and bytes are the target's
+				must(os.Symlink(filepath.Join(dir, name), filepath.Join(dir, "alias of "+name)))
+				reqName = append([]byte("alias of "), wireName...)
+			}
+			fs := []hlref.Field{fld(hlref.FFileName, reqName)}
 			if path != nil {
 				fs = append(fs, fld(hlref.FFilePath, path))
 			}
@@ -155,7 +162,7 @@ func c08prop(ev *evid.Rec) func(rt *rapid.T) {
 				fs = append(fs, fld(hlref.FFileTransferOptions, hlref.BE16(2)))
 			}
 			r := c.Request(hlref.TranDownloadFile, fs...)
-			ctx := fmt.Sprintf("download %q size=%d mode=%s offset=%d info=%v rsrc=%v(%d)", name, size, mode, k, storedInfo, storedRsrc, len(rsrc))
+			ctx := fmt.Sprintf("download %q size=%d mode=%s offset=%d info=%v rsrc=%v(%d) via-alias=%v", name, size, mode, k, storedInfo, storedRsrc, len(rsrc), viaAlias)
 			if !okReply(r) {
 				rt.Fatalf("%s: download request not granted: %s", ctx, replySummary(r))
 			}
@@ -214,7 +221,7 @@ func c08prop(ev *evid.Rec) func(rt *rapid.T) {
 			}
 		})
 		nt := size > 0 && (k > 0 || storedInfo || storedRsrc || size > 32768)
-		ev.Case(evid.Hash(name, content, mode, k, storedInfo, storedRsrc, rsrc, seg, segSeed, own), nt, "mode:"+mode, "segmentation:"+seg, fmt.Sprintf("own-root:%v", own), fmt.Sprintf("info:%v", storedInfo), fmt.Sprintf("rsrc:%v", storedRsrc), sizeClass(size))
+		ev.Case(evid.Hash(name, content, mode, k, storedInfo, storedRsrc, rsrc, seg, segSeed, own), nt, "mode:"+mode, "segmentation:"+seg, fmt.Sprintf("own-root:%v", own), fmt.Sprintf("via-alias:%v", viaAlias), fmt.Sprintf("info:%v", storedInfo), fmt.Sprintf("rsrc:%v", storedRsrc), sizeClass(size))
 		if nt && ev.WantSample() {
 			ev.Sample(map[string]any{"name": name, "size": size, "mode": mode, "resume_offset": k, "stored_info_fork": storedInfo, "stored_resource_fork": storedRsrc})
 		}
